@@ -85,7 +85,7 @@ ElabNode(p, os, dia, id) ==
   LET n == p[id]  o == os[id]  ic == "i" \in o
       plain(op) == Sem(op, <<>>, FALSE, "", FALSE, n, 0)
   IN
-  CASE n.op = "chr"    -> Sem("chr", n.rs, n.neg, "", ic, n, 0)
+  CASE n.op = "chr"    -> Sem("chr", n.rs, n.neg, IF n.cls = "" THEN "" ELSE ShCls(dia, n.cls), ic, n, 0)   \* cls: a shorthand written inside the class
     [] n.op = "sh"     -> Sem("chr", <<>>, FALSE, ShCls(dia, n.cls), FALSE, n, 0)
     [] n.op = "dot"    -> IF "s" \in o THEN Sem("chr", AllRunes, FALSE, "", FALSE, n, 0)
                           ELSE IF dia = "ecma"
